@@ -246,6 +246,41 @@ fn big_modules() -> Vec<(String, Box<dyn Fn() -> dr::Module + Sync + Send>)> {
         m.types_global_values = seq();
         m
     })));
+    for (maj, min) in [(1u8, 0u8), (1, 1), (1, 2), (1, 3), (1, 4), (1, 5), (1, 6), (0, 0), (2, 0), (255, 255)] {
+        out.push((format!("big: version {}.{}, every opcode once in every section and in a block", maj, min), Box::new(move || {
+            let ops: Vec<spirv::Op> = crate::golden::golden().insts.iter().filter_map(|gi| spirv::Op::from_u32(gi.opcode as u32)).collect();
+            let mut id = 0u32;
+            let mut seq = || -> Vec<dr::Instruction> {
+                ops.iter()
+                    .map(|o| {
+                        id += 1;
+                        dr::Instruction::new(*o, None, Some(id), vec![dr::Operand::LiteralBit32(id)])
+                    })
+                    .collect()
+            };
+            let mut m = dr::Module::new();
+            m.capabilities = seq();
+            m.extensions = seq();
+            m.ext_inst_imports = seq();
+            m.entry_points = seq();
+            m.execution_modes = seq();
+            m.debug_string_source = seq();
+            m.debug_names = seq();
+            m.debug_module_processed = seq();
+            m.annotations = seq();
+            m.types_global_values = seq();
+            let mut f = dr::Function::new();
+            let mut b = dr::Block::new();
+            b.instructions = seq();
+            f.parameters = seq();
+            f.blocks.push(b);
+            m.functions.push(f);
+            let mut h = dr::ModuleHeader::new(9);
+            h.set_version(maj, min);
+            m.header = Some(h);
+            m
+        })));
+    }
     for n in [255usize, 256, 257, 65535, 65536, 65537] {
         out.push((format!("big: every section {} instructions", n), Box::new(move || {
             let mut g = Gen { next: 0 };
@@ -261,6 +296,11 @@ fn big_modules() -> Vec<(String, Box<dyn Fn() -> dr::Module + Sync + Send>)> {
             m.debug_module_processed = g.list(k);
             m.debug_string_source = g.list(k);
             m.debug_names = g.list(n);
+            // a header whose version depends on n (1.0, 1.1, 1.3, 1.4, 1.6, 0.0, 255.255 all occur)
+            let mut h = dr::ModuleHeader::new(77);
+            let (maj, min) = [(1u8, 0u8), (1, 1), (1, 3), (1, 4), (1, 6), (0, 0), (255, 255)][n % 7];
+            h.set_version(maj, min);
+            m.header = Some(h);
             m
         })));
         for (f, b, i) in [(n, 1usize, 1usize), (1, n, 1), (1, 1, n), (2, n / 2 + 1, 0)] {
